@@ -183,7 +183,8 @@ def make_op(ctx, kind, state, vals_new, fresh):
         a = agent(with_steps=CTX['with_steps'])
         g = {'key': 'g%d' % fresh, 'processes': a['processes'],
              'topology': a['topology'],
-             'initial_state': {'s': {'x': vals_new}}}
+             # 'tag' is declared only by the actor's glob schema
+             'initial_state': {'s': {'x': vals_new}, 'tag': vals_new}}
         if 'steps' in a:
             g['steps'] = a['steps']
             g['flow'] = a['flow']
@@ -369,6 +370,8 @@ def body(ctx, cfg):
             node = _get(val, pth)
             cr.append(node is not None and EQ(_get(node, ('s', 'x')), vnew))
             cr.append(node is not None and _get(node, ('s', 'm')) == 4)
+            if label == 'gen':
+                cr.append(node is not None and EQ(_get(node, ('tag',)), vnew))
             for name, proc in a['processes'].items():
                 if isinstance(proc, Process):
                     sn = after.get(pth + (name,))
